@@ -70,6 +70,12 @@ def write(case, path):
         files.write_horus(path, case["recs"])
     elif fmt == "ndk":
         files.write_ndk(path, case["recs"], trailing_newline=case.get("nl", True))
+    if case.get("nl") is False and fmt != "ndk":
+        # the same records in a file whose last line has no terminator (what many editors and exporters write)
+        with open(path, "rb") as f:
+            raw = f.read()
+        with open(path, "wb") as f:
+            f.write(raw.rstrip(b"\r\n"))
 
 
 def check_case(ctx, case):
@@ -193,8 +199,7 @@ def cases(draw, max_n=50):
         c["catalog_id"] = draw(st.sampled_from([0, 7, None]))
     if fmt == "zmap":
         c["ncols"] = draw(st.sampled_from([10, 13]))
-    if fmt == "ndk":
-        c["nl"] = draw(st.booleans())
+    c["nl"] = draw(st.booleans())         # last line with / without its terminator (every format)
     if draw(st.integers(0, 15)) == 0:
         c["repeat"] = draw(st.sampled_from([40, max(40, -(-2500 // n))]))      # second choice: at least 2500 records
     if draw(st.integers(0, 3)) == 0:
